@@ -34,11 +34,17 @@ def RULE(tier):
             "close / answer with 'Transfer-Encoding: Chunked' / head in two segments cut inside the header block / a bare 100 Continue first / redirect to a Location whose query values hold encoded ? = & + / redirect to an absolute Location without a port (listeners on 80 and 443) / redirect to https on the second listener, which redirects down to http:// / (TLS) redirect to an http:// location. Oracle: no request bytes reach the server while an earlier response is "
             "unfinished; client.responses holds at most one entry per request in queue order with its tag and redirect history; "
             "https->http is refused without any connection to the plain listener, also on the second hop of a chain; exactly one entry per request when the connection "
-            "stays usable." % (2 if tier == "quick" else 3))
+            "stays usable.%s" % (2 if tier == "quick" else 3, "" if tier == "quick" else " Queues of 3 requests: every assignment with <= 4 choices off the default; queues of 1-2: the complete tree."))
 
 
 def EXHAUSTIVE(tier):
-    return True
+    return tier == "quick"
+
+
+def job_bound(job, tier):
+    """queues of 1 and 2 requests: the complete tree; queues of 3 (thorough tier): every assignment with at most 4 choices off
+    the default (behaviour, redirect code, queueing style per request) - the complete tree of 3 is 15^3 behaviours x styles x codes"""
+    return None if job[2] <= 2 else 4
 
 
 def jobs(tier):
@@ -344,4 +350,4 @@ def harness(job, ch):
                    sample=dict(tls=tls, requests=nreq, reconnectable=reconnectable, behaviours=behs, codes=codes, tags=tags, server_saw=w.seen))
 
 
-run_job, replay = standard(harness, BOUND)
+run_job, replay = standard(harness, BOUND, job_bound=job_bound)
